@@ -344,6 +344,12 @@ func (w *World) client(p *CallPlan) *connect.Client[Msg, Msg] {
 	for _, name := range cfg.NilAccept {
 		opts = append(opts, connect.WithAcceptCompression(name, nil, nil))
 	}
+	if cfg.FailCodec {
+		opts = append(opts, connect.WithCodec(&simCodec{name: "proto", inner: pbCodec{}}))
+		if cfg.JSON {
+			opts = append(opts, connect.WithCodec(&simCodec{name: "json", inner: pbCodec{json: true}}))
+		}
+	}
 	if cfg.SendComp != "" {
 		opts = append(opts, connect.WithSendCompression(cfg.SendComp))
 	}
